@@ -30,6 +30,8 @@ impl<'a> NoUnusedVariables<'a> {
         used: &mut HashSet<&'a str>,
         visited: &mut HashSet<Scope<'a>>,
     ) {
+        #[cfg(async_graphql_verif)]
+        crate::verif_hooks::RULE_STEPS[3].fetch_add(1, std::sync::atomic::Ordering::Relaxed);
         if visited.contains(from) {
             return;
         }
